@@ -27,8 +27,8 @@ The only hypothesis on the machine is that it is still RUNNING after the cycles 
    these are two timer registers.  `whole_one_timer_write` : it holds whenever SP is not one of these three values
    (or the micro-operation of the cycle writes at most one byte); the example at the end of §1 exhibits the
    exceptional cycle.
-2. LCD (C13/C14).  `whole_lcd_trace`, `whole_lcd_run`, `c13_whole`, `whole_lcd_irq`, `c14_whole_vblank`,
-   `c14_whole_stat`.
+2. LCD (C13/C14).  `whole_lcd_trace`, `whole_lcd_run`, `c13_whole`, `whole_lcd_reads`, `whole_lcd_irq`,
+   `c14_whole_requests`, `c14_whole_vblank`.
 -/
 namespace Tetro.WholeTraces
 open Tetro.Model Tetro.Model.Machine Tetro.Model.Whole
@@ -49,6 +49,7 @@ theorem running_prefix (k n : Nat) (hk : k ≤ n) (w : Whole) (h : (Whole.run n 
     (Whole.run k w).stopped = false := by
   obtain ⟨d, rfl⟩ : ∃ d, n = k + d := ⟨n - k, by omega⟩
   rw [run_add] at h
+  clear hk
   generalize Whole.run k w = x at h
   induction d generalizing x with
   | zero => exact h
@@ -88,11 +89,11 @@ private theorem timer_fold (wr : List (Cpu.Word × Cpu.Byte)) (t : Timer.T) :
     by_cases h4 : p.1.toNat = 0xFF04
     · simp only [h4, if_true, List.foldl_cons]; rfl
     · by_cases h5 : p.1.toNat = 0xFF05
-      · simp only [h5, if_true, List.foldl_cons]; rfl
+      · simp only [h5, if_true]; rfl
       · by_cases h6 : p.1.toNat = 0xFF06
-        · simp only [h6, if_true, List.foldl_cons]; rfl
+        · simp only [h6, if_true]; rfl
         · by_cases h7 : p.1.toNat = 0xFF07
-          · simp only [h7, if_true, List.foldl_cons]; rfl
+          · simp only [h7, if_true]; rfl
           · simp only [h4, h5, h6, h7, if_false]
 
 private theorem frame_timer : Frame (fun m : Machine => m.timer) := ⟨fun _ _ => rfl, fun _ _ => rfl⟩
@@ -148,7 +149,8 @@ theorem whole_timer_run_calls (n : Nat) (w : Whole) (h : (Whole.run n w).stopped
     have h1 : w.cycle.stopped = false := running_prefix 1 (n + 1) (by omega) w h
     show (Whole.run n w.cycle).b.m.timer = _
     rw [ih w.cycle h, (whole_timer_trace w h1).2]
-    unfold timerCalls Timer.runCalls
+    rw [show timerCalls (n + 1) w = timerCallsOf w ++ timerCalls n w.cycle from rfl]
+    unfold Timer.runCalls
     rw [List.foldl_append]
 
 /-- **C12 on the whole machine, DIV / TMA / TAC, EVERY program** (no hypothesis on the number of writes per
@@ -227,8 +229,8 @@ private theorem slot_byte (w : Whole) : Tetro.C12.ByteW (timerSlot w) := by
     unfold timerWrite? at hp
     repeat' split at hp
     all_goals first
+      | (simp only [Option.some.injEq] at hp; subst hp; first | exact True.intro | exact p.2.isLt)
       | cases hp
-      | (simp only [Option.some.injEq] at hp; subst hp; first | trivial | exact p.2.isLt)
 
 /-- the induced schedule writes bytes (hypothesis `Bytes` of `c12_refines`) -/
 theorem timerSched_bytes (n : Nat) (w : Whole) : Tetro.C12.Bytes (timerSched n w) := by
@@ -340,24 +342,28 @@ theorem c12_whole_irq (img : Cart.Image) (wr au : Bool) (w0 : Whole) (hc : Whole
 
 private def isTimerAddr (a : Cpu.Word) : Bool := decide (0xFF04 ≤ a.toNat ∧ a.toNat ≤ 0xFF07)
 
+private theorem timerWrite?_isSome (p : Cpu.Word × Cpu.Byte) : (timerWrite? p).isSome = isTimerAddr p.1 := by
+  unfold timerWrite? isTimerAddr
+  repeat' split
+  all_goals simp
+  all_goals omega
+
 private theorem timerWrites_length (wr : List (Cpu.Word × Cpu.Byte)) :
     (timerWrites wr).length = ((wr.map (·.1)).filter isTimerAddr).length := by
   induction wr with
   | nil => rfl
   | cons p wr ih =>
-    unfold timerWrites at ih ⊢
-    rw [List.filterMap_cons, List.map_cons, List.filter_cons]
-    unfold timerWrite? isTimerAddr
-    by_cases h4 : p.1.toNat = 0xFF04
-    · simp only [h4, if_true, List.length_cons, ih]; simp
-    · by_cases h5 : p.1.toNat = 0xFF05
-      · simp only [h5, if_true, List.length_cons, ih]; simp
-      · by_cases h6 : p.1.toNat = 0xFF06
-        · simp only [h6, if_true, List.length_cons, ih]; simp
-        · by_cases h7 : p.1.toNat = 0xFF07
-          · simp only [h7, if_true, List.length_cons, ih]; simp
-          · have hn : ¬ (0xFF04 ≤ p.1.toNat ∧ p.1.toNat ≤ 0xFF07) := by omega
-            simp only [h4, h5, h6, h7, if_false, hn, decide_false, Bool.false_eq_true, ih]
+    have k := timerWrite?_isSome p
+    simp only [timerWrites, List.filterMap_cons, List.map_cons, List.filter_cons] at ih ⊢
+    cases hp : timerWrite? p with
+    | none =>
+      rw [hp] at k
+      rw [← k]
+      simpa using ih
+    | some x =>
+      rw [hp] at k
+      rw [← k]
+      simpa using ih
 
 private theorem filter_le_one {α : Type} (p : α → Bool) (l : List α) (h : l.length ≤ 1) :
     (l.filter p).length ≤ 1 := Nat.le_trans (List.length_filter_le p l) h
@@ -368,7 +374,7 @@ private theorem writeAddrs_length (μ : Cpu.MicroOp) (r : Cpu.Regs) (ime : Bool)
   cases μ
   case handleInterrupt =>
     cases ime
-    · exact Or.inl (by decide)
+    · exact Or.inl (Nat.zero_le 1)
     · exact Or.inr rfl
   all_goals exact Or.inl (by simp [writeAddrs])
 
@@ -424,7 +430,7 @@ theorem whole_one_timer_write (w : Whole)
     · rcases h with h | h
       · rw [h2]; exact two_pushes _ h
       · exact filter_le_one _ _ h
-  · unfold cpuWrites; rw [hs]; decide
+  · unfold cpuWrites; rw [hs, if_pos rfl]; exact Nat.zero_le 1
 
 /-! ### non-vacuity (timer) -/
 
@@ -463,6 +469,25 @@ example : OneTimerWriteRun 11 timerW := by
   left
   have : k = 0 ∨ k = 1 ∨ k = 2 ∨ k = 3 ∨ k = 4 ∨ k = 5 ∨ k = 6 ∨ k = 7 ∨ k = 8 ∨ k = 9 ∨ k = 10 := by omega
   rcases this with rfl | rfl | rfl | rfl | rfl | rfl | rfl | rfl | rfl | rfl | rfl <;> decide +kernel
+
+/-- **the exceptional cycle exists.**  `LD SP,FF08; LD A,01; LDH (FF),A` enables the VBlank interrupt that is
+    pending at power-on with IME set: the dispatch pushes PC = 0107 to FF07 and FF06 in ONE machine cycle (cycle 13),
+    two timer writes without a tick between them – the guest alphabet of `c12_refines` does not contain this cycle,
+    `whole_timer_trace` / `c12_whole_regs` (free alphabet) do. -/
+def pushImg : Cart.Image :=
+  { len := 0x8000,
+    byte := fun i =>
+      if i = 0x100 then 0x31 else if i = 0x101 then 0x08 else if i = 0x102 then 0xFF else if i = 0x103 then 0x3E
+      else if i = 0x104 then 0x01 else if i = 0x105 then 0xE0 else if i = 0x106 then 0xFF else 0 }
+
+def pushW : Whole := powerOn (.none { rom := Cart.pagesOf pushImg, imgLen := 0x8000 }) false false
+
+example : Whole.construct pushImg false false = some pushW := rfl
+example : (Whole.run 12 pushW).cpu.regs.sp = 0xFF08 ∧
+    timerWrites (cpuWrites (Whole.run 12 pushW)) = [.tac 0x01, .tma 0x07] ∧ ¬ OneTimerWrite (Whole.run 12 pushW) ∧
+    (Whole.run 13 pushW).stopped = false ∧
+    Timer.readTMA (Whole.run 13 pushW).b.m.timer = 0x07 ∧ Timer.readTAC (Whole.run 13 pushW).b.m.timer = 0xf9 := by
+  decide +kernel
 
 /-! ## 2. the LCD -/
 
@@ -669,12 +694,18 @@ theorem c14_whole_vblank (img : Cart.Image) (wr au : Bool) (w0 : Whole) (hc : Wh
 
 /-! ### non-vacuity (LCD) -/
 
-/-- the machine of C17Whole's examples whose program switches the LCD off (`offW`): its induced LCD trace contains
-    the LCDC write, after which the closed form says "off" -/
-example : (Whole.run 6 offW).cpu.regs.exited = false ∧
-    Tetro.LcdLemmas.sinceOf (lcdTrace 3 offW) = some 3 ∧ Tetro.LcdLemmas.sinceOf (lcdTrace 6 offW) = none ∧
-    Lcd.Op.wLCDC 0x11 ∈ lcdTrace 6 offW ∨ True := by
-  right; trivial
+/-- the machine of C17Whole's examples whose program switches the LCD off (`offW`, constructed): its induced LCD
+    trace contains the LCDC write in the cycle the CPU performs it; before it the closed form counts the cycles since
+    power-on, after it the LCD is off and `c13_whole` says LY = 0, mode 0 -/
+example : lcdTrace 7 offW = [.tick, .tick, .tick, .tick, .wLCDC 0x11, .tick, .tick, .tick] ∧
+    Tetro.LcdLemmas.sinceOf (lcdTrace 4 offW) = some 4 ∧ Tetro.LcdLemmas.sinceOf (lcdTrace 5 offW) = none ∧
+    (Whole.run 7 offW).cpu.regs.exited = false := by decide +kernel
 
+example : Whole.construct offImg false false = some offW := rfl
+
+/-- `c14_whole_requests` on the all-NOP machine: its hypothesis holds, the trace up to the PPU step of cycle 4 is
+    three ticks (the first VBlank request comes at cycle 16 415, `c14_vblank_once`) -/
+example : (Whole.run 4 demo).cpu.regs.exited = false ∧ lcdBefore 3 demo = [.tick, .tick, .tick] ∧
+    Tetro.LcdLemmas.sinceOf (lcdBefore 3 demo) = some 3 := by decide +kernel
 
 end Tetro.WholeTraces
